@@ -61,6 +61,11 @@ def run(R):
                      "test that compares the proofs' variables. A closed form whose side condition compares signed literals is wrong: literals of the "
                      "same seed with opposite polarity are not independent")
     r8(R)
+    R.rule("C06-R9", "saturation means `nothing changed`: every Provenance::is_saturated compares its two tags as wholes (equality, or a numeric "
+                     "distance for the float-valued modes); none compares a projection of the tags - their size, their emptiness, their first "
+                     "element. Disjunction absorbs subsumed proofs, so a tag can change while its number of proofs stays the same; "
+                     "update_disjunction then discards the improved tag")
+    r9(R)
     # ---- R1 (positive round) and R3, shared with C12
     c12.r5_r6(Remap(R, {"C12-R5": "C06-R1", "C12-R6": "C06-R3"}))
     c12.r3(Remap(R, {"C12-R3": "C06-R3"}))
@@ -412,3 +417,21 @@ def r8(R):
         R.ob("C06-R8", "return-by-expansion", "a value shannon_wmc returns is a base-case constant, the memoised value or built from the recursive counts", ok,
              where=b.where(ln), detail=None if ok else why)
     R.floor("C06-R8", "assignments to shannon_wmc's result", nret, 3)
+
+
+
+def r9(R):
+    prog = R.prog
+    impls = [b for b in prog.bodies.values() if b.crate == "shared" and not b.is_closure and "::tests::" not in b.key and b.name == "is_saturated"
+             and (b.r.get("trait_item") or "").endswith("Provenance::is_saturated")]
+    R.floor("C06-R9", "implementations of Provenance::is_saturated", len(impls), 6)
+    PROJ = ("len", "count", "is_empty", "first", "last", "iter", "keys", "capacity", "min", "max", "next")
+    for b in sorted(impls, key=lambda x: x.key):
+        R.saw(b)
+        proj = sorted({c.name() for x in prog.family(b.key) for c in x.calls() if c.name() in PROJ})
+        cmp_whole = any(c.name() in ("eq", "ne") for c in b.calls()) or any(rv["rv"] == "binop" and rv["op"] in ("Eq", "Ne", "Lt", "Le", "Gt", "Ge")
+                                                                          for bb, i, pl, rv, st in b.assigns())
+        ok = cmp_whole and not proj
+        who = (b.r.get("self_ty") or b.pretty or b.key).split("::")[-1] if hasattr(b, "r") else b.key
+        R.ob("C06-R9", "whole-tags:" + b.key.split("::")[-2] if "::" in b.key else b.key, "%s compares the tags as wholes" % b.pretty.replace("shared::", ""), ok, where=b.where(),
+             detail=None if ok else "the comparison goes through %s: two different tags with the same %s count as saturated and the new one is dropped" % (proj, proj[0] if proj else "projection"))
